@@ -1,1 +1,231 @@
-//! oracle for threefish — to be written from the specification
+//! Threefish-256/512/1024, written from "The Skein Hash Function Family" version 1.3 (Ferguson, Lucks, Schneier,
+//! Whiting, Bellare, Kohno, Callas, Walker), section 3.3.
+//!
+//!   v_{0,i} = p_i;  e_{d,i} = v_{d,i} + k_{d/4,i} if d mod 4 = 0 else v_{d,i}
+//!   (f_{d,2j}, f_{d,2j+1}) = MIX_{d,j}(e_{d,2j}, e_{d,2j+1});   v_{d+1,i} = f_{d,pi(i)};   c_i = v_{Nr,i} + k_{Nr/4,i}
+//!   MIX_{d,j}(x0, x1): y0 = x0 + x1;  y1 = (x1 <<< R_{d mod 8, j}) ^ y0
+//!   key schedule: k_{Nw} = C240 ^ k_0 ^ .. ^ k_{Nw-1};  t_2 = t_0 ^ t_1;
+//!       k_{s,i} = k_{(s+i) mod (Nw+1)}                      i = 0 .. Nw-4
+//!               = k_{(s+i) mod (Nw+1)} + t_{s mod 3}        i = Nw-3
+//!               = k_{(s+i) mod (Nw+1)} + t_{(s+1) mod 3}    i = Nw-2
+//!               = k_{(s+i) mod (Nw+1)} + s                  i = Nw-1
+//! The rotation constants (Table 4), the word permutations pi (Table 3) and C240 are data of the specification.
+//! Bytes <-> words: little-endian (section 3.1, ToInt / ToBytes).
+//!
+//! `NW` = number of words, `NS` = Nr/4 + 1 subkeys (19 / 19 / 21).  MIX is a parameter of the `*_with` functions so
+//! that a harness can run implementation and model over the same uninterpreted MIX (argument order as the
+//! repository's `mix(r, (x0, x1))`).
+
+pub const C240: u64 = 0x1BD11BDAA9FC1A22;
+
+pub const R4: [[u8; 2]; 8] = [[14, 16], [52, 57], [23, 40], [5, 37], [25, 33], [46, 12], [58, 22], [32, 32]];
+pub const R8: [[u8; 4]; 8] = [
+    [46, 36, 19, 37],
+    [33, 27, 14, 42],
+    [17, 49, 36, 39],
+    [44, 9, 54, 56],
+    [39, 30, 34, 24],
+    [13, 50, 10, 17],
+    [25, 29, 39, 43],
+    [8, 35, 56, 22],
+];
+pub const R16: [[u8; 8]; 8] = [
+    [24, 13, 8, 47, 8, 17, 22, 37],
+    [38, 19, 10, 55, 49, 18, 23, 52],
+    [33, 4, 51, 13, 34, 41, 59, 17],
+    [5, 20, 48, 41, 47, 28, 16, 25],
+    [41, 9, 37, 31, 12, 47, 44, 30],
+    [16, 34, 56, 51, 4, 53, 42, 41],
+    [31, 44, 47, 46, 19, 42, 44, 25],
+    [9, 48, 35, 52, 23, 31, 37, 20],
+];
+/// pi(i), Table 3
+pub const PI4: [u8; 4] = [0, 3, 2, 1];
+pub const PI8: [u8; 8] = [2, 1, 4, 7, 6, 5, 0, 3];
+pub const PI16: [u8; 16] = [0, 9, 2, 13, 6, 11, 4, 15, 10, 7, 12, 3, 14, 5, 8, 1];
+
+pub const fn rounds(nw: usize) -> usize {
+    if nw == 16 {
+        80
+    } else {
+        72
+    }
+}
+pub fn rot(nw: usize, d: usize, j: usize) -> u8 {
+    match nw {
+        4 => R4[d % 8][j],
+        8 => R8[d % 8][j],
+        _ => R16[d % 8][j],
+    }
+}
+pub fn pi(nw: usize, i: usize) -> usize {
+    (match nw {
+        4 => PI4[i],
+        8 => PI8[i],
+        _ => PI16[i],
+    }) as usize
+}
+
+pub fn mix(r: u8, x: (u64, u64)) -> (u64, u64) {
+    let y0 = x.0.wrapping_add(x.1);
+    (y0, x.1.rotate_left(r as u32) ^ y0)
+}
+pub fn inv_mix(r: u8, y: (u64, u64)) -> (u64, u64) {
+    let x1 = (y.1 ^ y.0).rotate_right(r as u32);
+    (y.0.wrapping_sub(x1), x1)
+}
+
+pub fn key_schedule<const NW: usize, const NS: usize>(key: &[u64; NW], tweak: &[u64; 2]) -> [[u64; NW]; NS] {
+    assert!(NS == rounds(NW) / 4 + 1);
+    // NW + 1 <= 17 extended key words
+    let mut k = [0u64; 17];
+    let mut kn = C240;
+    let mut i = 0;
+    while i < NW {
+        k[i] = key[i];
+        kn ^= key[i];
+        i += 1;
+    }
+    k[NW] = kn;
+    let t = [tweak[0], tweak[1], tweak[0] ^ tweak[1]];
+    let mut sk = [[0u64; NW]; NS];
+    let mut s = 0;
+    while s < NS {
+        i = 0;
+        while i < NW {
+            let base = k[(s + i) % (NW + 1)];
+            sk[s][i] = if i + 3 == NW {
+                base.wrapping_add(t[s % 3])
+            } else if i + 2 == NW {
+                base.wrapping_add(t[(s + 1) % 3])
+            } else if i + 1 == NW {
+                base.wrapping_add(s as u64)
+            } else {
+                base
+            };
+            i += 1;
+        }
+        s += 1;
+    }
+    sk
+}
+
+pub fn encrypt_with<const NW: usize, const NS: usize, M: Fn(u8, (u64, u64)) -> (u64, u64)>(
+    sk: &[[u64; NW]; NS],
+    p: &[u64; NW],
+    mixf: M,
+) -> [u64; NW] {
+    let nr = rounds(NW);
+    let mut v = *p;
+    let mut d = 0;
+    while d < nr {
+        let mut e = v;
+        if d % 4 == 0 {
+            let mut i = 0;
+            while i < NW {
+                e[i] = v[i].wrapping_add(sk[d / 4][i]);
+                i += 1;
+            }
+        }
+        let mut f = [0u64; NW];
+        let mut j = 0;
+        while j < NW / 2 {
+            let (f0, f1) = mixf(rot(NW, d, j), (e[2 * j], e[2 * j + 1]));
+            f[2 * j] = f0;
+            f[2 * j + 1] = f1;
+            j += 1;
+        }
+        let mut i = 0;
+        while i < NW {
+            v[i] = f[pi(NW, i)];
+            i += 1;
+        }
+        d += 1;
+    }
+    let mut c = [0u64; NW];
+    let mut i = 0;
+    while i < NW {
+        c[i] = v[i].wrapping_add(sk[nr / 4][i]);
+        i += 1;
+    }
+    c
+}
+
+/// Inverse of `encrypt_with`, with `imixf` the inverse of MIX.
+pub fn decrypt_with<const NW: usize, const NS: usize, M: Fn(u8, (u64, u64)) -> (u64, u64)>(
+    sk: &[[u64; NW]; NS],
+    c: &[u64; NW],
+    imixf: M,
+) -> [u64; NW] {
+    let nr = rounds(NW);
+    let mut v = [0u64; NW];
+    let mut i = 0;
+    while i < NW {
+        v[i] = c[i].wrapping_sub(sk[nr / 4][i]);
+        i += 1;
+    }
+    let mut d = nr;
+    while d > 0 {
+        d -= 1;
+        // v_{d+1,i} = f_{d,pi(i)}
+        let mut f = [0u64; NW];
+        i = 0;
+        while i < NW {
+            f[pi(NW, i)] = v[i];
+            i += 1;
+        }
+        let mut e = [0u64; NW];
+        let mut j = 0;
+        while j < NW / 2 {
+            let (e0, e1) = imixf(rot(NW, d, j), (f[2 * j], f[2 * j + 1]));
+            e[2 * j] = e0;
+            e[2 * j + 1] = e1;
+            j += 1;
+        }
+        i = 0;
+        while i < NW {
+            v[i] = if d % 4 == 0 { e[i].wrapping_sub(sk[d / 4][i]) } else { e[i] };
+            i += 1;
+        }
+    }
+    v
+}
+
+pub fn words_from_le<const NW: usize>(b: &[u8]) -> [u64; NW] {
+    assert!(b.len() == 8 * NW);
+    let mut w = [0u64; NW];
+    let mut i = 0;
+    while i < NW {
+        let mut x = 0u64;
+        let mut j = 8;
+        while j > 0 {
+            j -= 1;
+            x = (x << 8) | b[8 * i + j] as u64;
+        }
+        w[i] = x;
+        i += 1;
+    }
+    w
+}
+pub fn words_to_le<const NW: usize>(w: &[u64; NW], out: &mut [u8]) {
+    assert!(out.len() == 8 * NW);
+    let mut i = 0;
+    while i < NW {
+        let mut j = 0;
+        while j < 8 {
+            out[8 * i + j] = (w[i] >> (8 * j)) as u8;
+            j += 1;
+        }
+        i += 1;
+    }
+}
+
+/// Byte-level API: key 8*NW bytes, tweak 16 bytes, block 8*NW bytes transformed in place.
+pub fn crypt_bytes<const NW: usize, const NS: usize>(key: &[u8], tweak: &[u8; 16], block: &mut [u8], decrypt: bool) {
+    let k = words_from_le::<NW>(key);
+    let t = words_from_le::<2>(tweak);
+    let sk = key_schedule::<NW, NS>(&k, &t);
+    let b = words_from_le::<NW>(block);
+    let o = if decrypt { decrypt_with(&sk, &b, inv_mix) } else { encrypt_with(&sk, &b, mix) };
+    words_to_le(&o, block);
+}
